@@ -31,26 +31,28 @@ Cat(ss) == IF ss = <<>> THEN <<>> ELSE Head(ss) \o Cat(Tail(ss))
 LengthLike(b) == {p \in 1..(Len(b) - 1) : W16(b, p) >= 4 /\ W16(b, p) <= Len(b)}
 \* win = <<h, t>> confines the mutated positions of a (very large) frame to its first h and last t bytes; <<0, 0>> = every position
 InWin(n, win, p) == win = <<0, 0>> \/ p <= win[1] \/ p > n - win[2]
-Muts(b, win, deep) ==
+Muts(b, win, deep, lite) ==
   LET n == Len(b)
       P(hi) == SetToSeq({p \in 1..hi : InWin(n, win, p)})
       pn == P(n)  pn1 == P(n - 1)  pn3 == P(n - 3)
       tr == [k \in DOMAIN pn |-> <<"t", pn[k] - 1, 0, 0>>]
       s8 == Cat([k \in DOMAIN pn |-> LET p == pn[k]  vs == SetToSeq(B8(b[p]) \ {b[p]}) IN [i \in DOMAIN vs |-> <<"s", p, 1, vs[i]>>]])
-      s16 == Cat([k \in DOMAIN pn1 |-> LET p == pn1[k]  vs == SetToSeq(B16(n, W16(b, p)) \ {W16(b, p)}) IN [i \in DOMAIN vs |-> <<"s", p, 2, vs[i]>>]])
+      \* lite: only the 16-bit positions, only zero and the wrap-around boundaries (frames thinned out of the quick tier keep these)
+      L16 == {0, 1, 65535} \cup {65536 - k : k \in {2, 4, 7, 8, 9, 15, 16, 24, 32, 40, 48, 56, 64}}
+      s16 == Cat([k \in DOMAIN pn1 |-> LET p == pn1[k]  vs == SetToSeq((IF lite THEN L16 ELSE B16(n, W16(b, p))) \ {W16(b, p)}) IN [i \in DOMAIN vs |-> <<"s", p, 2, vs[i]>>]])
       f32 == Cat([k \in DOMAIN pn3 |-> << <<"f", pn3[k], 4, 0>>, <<"f", pn3[k], 4, 255>> >>])
       ext == << <<"x", 0, 1, 0>>, <<"x", 0, 7, 255>>, <<"x", 0, 8, 0>>, <<"x", 0, 64, 1>> >>
       ll == SetToSeq({p \in LengthLike(b) : InWin(n, win, p)})
       d2 == IF ~(Depth2 \/ deep) THEN <<>>
             ELSE Cat([i \in DOMAIN ll |-> Cat([j \in DOMAIN ll |->
                    IF i < j THEN [k \in 1..4 |-> <<"d", ll[i], ll[j], (<<0, 1, n + 1, 65535>>)[k], (<<65535, n + 1, 1, 0>>)[k]>>] ELSE <<>>])])
-  IN tr \o s8 \o s16 \o f32 \o ext \o d2
+  IN IF lite THEN s16 ELSE tr \o s8 \o s16 \o f32 \o ext \o d2
 Init == c = 0
 Next == /\ c = 0
         /\ \E i \in 1..Len(Base) :
              /\ (Len(Base[i].frame) <= MaxLen \/ "win" \in DOMAIN Base[i])
              /\ c' = i
              /\ PrintT(ToJson([id |-> Base[i].id, k |-> "total", entry |-> Base[i].entry, kind |-> Base[i].kind, frame |-> Base[i].frame,
-                               muts |-> Muts(Base[i].frame, IF "win" \in DOMAIN Base[i] THEN Base[i].win ELSE <<0, 0>>, "d2" \in DOMAIN Base[i] /\ Base[i].d2)]))
+                               muts |-> Muts(Base[i].frame, IF "win" \in DOMAIN Base[i] THEN Base[i].win ELSE <<0, 0>>, "d2" \in DOMAIN Base[i] /\ Base[i].d2, "lite" \in DOMAIN Base[i] /\ Base[i].lite)]))
 Spec == Init /\ [][Next]_c
 =============================================================================
